@@ -439,7 +439,7 @@ def explore_harness(acc, hname, bound, budget, roots=None):
 
 
 THOROUGH_ONLY = ["two-submitters"]
-SMALL = ["race", "race-wait", "timeout", "after", "spawn-failure", "solve", "solve-300ms", "solve-nolimit"]
+SMALL = ["race", "race-wait", "timeout", "after", "spawn-failure", "solve", "solve-300ms", "solve-nolimit", "child-race", "child-timeout"]
 
 
 def bounds(tier, hname):
